@@ -94,6 +94,7 @@ struct vk_cfg {
   int elapsed_inf_n;   /* elapsed menu while blocked without OS timeout */
   int elapsed_inf[4];
   int dry_mode;        /* C13: first resource-creating call ends the execution */
+  int hello_lite;      /* emulated exec only: the helper reports descriptors by probing and no signal state */
   int passthru;        /* free-running validation: no choice points, real blocking, real clock */
   unsigned long long fault_calls; /* bit per C_xxx: which calls get a FAULT menu (0 = all) */
 };
